@@ -1,4 +1,4 @@
-"""F34 demo: a REJECTED cold fit of a fitted VoronoiFPS (invalid full_fraction, or invalid
+"""F35 demo: a REJECTED cold fit of a fitted VoronoiFPS (invalid full_fraction, or invalid
 n_trial_calculation with full_fraction=None) has already overwritten vlocation_of_idx and dSL_
 when it raises, but keeps n_selected_/hausdorff_.  The user corrects the parameter and warm-starts:
 the pruning rule now works on cell labels that are all 1, skips candidates it must update, and the
